@@ -40,6 +40,32 @@ func (p *toks) str() string {
 	}
 	return string(b)
 }
+// typed reports whether the next token is a typed literal (`i:` `t:` `f:`) and, if so, consumes it.
+func (p *toks) typed() (gval, bool) {
+	if p.i >= len(p.t) {
+		return gval{}, false
+	}
+	s := p.t[p.i]
+	switch {
+	case strings.HasPrefix(s, "i:"):
+		n, err := strconv.Atoi(s[2:])
+		if err != nil {
+			panic("script: bad int literal " + s)
+		}
+		p.i++
+		return gval{s, n}, true
+	case s == "t:1" || s == "t:0":
+		p.i++
+		return gval{s, s == "t:1"}, true
+	case strings.HasPrefix(s, "f:"):
+		q := &toks{t: []string{s[2:]}}
+		f := q.score()
+		p.i++
+		return gval{s, f}, true
+	}
+	return gval{}, false
+}
+
 func (p *toks) int() int {
 	n, err := strconv.Atoi(p.next())
 	if err != nil {
@@ -118,7 +144,11 @@ func parseStep(text string) (st step, err error) {
 	case "str.IncrFloat":
 		return opStrIncrFloat(p.str(), p.score()), nil
 	case "str.Set":
-		return opStrSet(p.str(), p.str(), false), nil
+		k := p.str()
+		if v, ok := p.typed(); ok {
+			return opStrSetG(k, v), nil
+		}
+		return opStrSet(k, p.str(), false), nil
 	case "str.SetExpires":
 		return opStrSetExpires(p.str(), p.str(), p.i64()), nil
 	case "str.SetMany":
@@ -183,10 +213,12 @@ func parseStep(text string) (st step, err error) {
 		return opListPopFront(p.str()), nil
 	case "list.PopBackPushFront":
 		return opListPopBackPushFront(p.str(), p.str()), nil
-	case "list.PushBack":
-		return opListPush(p.str(), p.str(), false, false), nil
-	case "list.PushFront":
-		return opListPush(p.str(), p.str(), true, false), nil
+	case "list.PushBack", "list.PushFront":
+		k := p.str()
+		if v, ok := p.typed(); ok {
+			return opListPushG(k, v, name == "list.PushFront"), nil
+		}
+		return opListPush(k, p.str(), name == "list.PushFront", false), nil
 	case "list.Range":
 		return opListRange(p.str(), p.int(), p.int()), nil
 	case "list.Set":
@@ -194,7 +226,20 @@ func parseStep(text string) (st step, err error) {
 	case "list.Trim":
 		return opListTrim(p.str(), p.int(), p.int()), nil
 	case "set.Add":
-		return opSetAdd(p.str(), p.strs(), false), nil
+		k := p.str()
+		if p.i+1 < len(p.t) && (strings.HasPrefix(p.t[p.i+1], "i:") || strings.HasPrefix(p.t[p.i+1], "t:") || strings.HasPrefix(p.t[p.i+1], "f:")) {
+			n := p.int()
+			vs := make([]gval, 0, n)
+			for j := 0; j < n; j++ {
+				v, ok := p.typed()
+				if !ok {
+					panic("script: set.Add mixes typed and hex members")
+				}
+				vs = append(vs, v)
+			}
+			return opSetAddG(k, vs), nil
+		}
+		return opSetAdd(k, p.strs(), false), nil
 	case "set.Delete":
 		return opSetDelete(p.str(), p.strs()), nil
 	case "set.Diff":
@@ -244,7 +289,11 @@ func parseStep(text string) (st step, err error) {
 	case "hash.Scan":
 		return opHashScan(p.str(), p.int(), p.str(), p.int()), nil
 	case "hash.Set":
-		return opHashSet(p.str(), p.str(), p.str(), false), nil
+		k, f := p.str(), p.str()
+		if v, ok := p.typed(); ok {
+			return opHashSetG(k, f, v), nil
+		}
+		return opHashSet(k, f, p.str(), false), nil
 	case "hash.SetMany":
 		return opHashSetMany(p.str(), p.pairs()), nil
 	case "hash.SetNotExists":
